@@ -66,13 +66,22 @@ func (vs *varStore) bindScriggoPackageVar(pkg *ast.Package, name string, index i
 }
 
 func (vs *varStore) createScriggoPackageVar(pkg *ast.Package, global Global) int16 {
-	index := int16(len(vs.globals))
-	vs.globals = append(vs.globals, global)
+	index := vs.addGlobal(global)
 	if vs.scriggoPackageVarRefs[pkg] == nil {
 		vs.scriggoPackageVarRefs[pkg] = map[string]int16{}
 	}
 	vs.scriggoPackageVarRefs[pkg][global.Name] = index
 	return index
+}
+
+// addGlobal adds a global variable and returns its index.
+func (vs *varStore) addGlobal(global Global) int16 {
+	index := len(vs.globals)
+	if index == maxGlobalsCount {
+		panic(newLimitExceededError(vs.emitter.fb.fn.Pos, vs.emitter.fb.path, "global variables count exceeded %d", maxGlobalsCount))
+	}
+	vs.globals = append(vs.globals, global)
+	return int16(index)
 }
 
 // mustBeDeclaredAsIndirect reports whether v must be declared as indirect.
@@ -95,8 +104,7 @@ func (vs *varStore) predefVarIndex(v *reflect.Value, typ reflect.Type, pkg, name
 		if v.IsValid() {
 			g.Value = *v
 		}
-		index = int16(len(vs.globals))
-		vs.globals = append(vs.globals, g)
+		index = vs.addGlobal(g)
 		vs.predefVarGlobal[v] = index
 	}
 	if vs.predefVarRef[currFn] == nil {
